@@ -128,7 +128,7 @@ def check(prog, rep):
     lin = P.methods.get("_is_linear_problem")
     lp = prog.func("optyx.solvers.lp_solver:solve_lp")
     ok = lin is not None and "is_linear(" in src(lin.node) and "is_linear(" in src(lp.node)
-    rep.ob("R12.3", "routing", ok, "both the auto router and solve_lp gate on is_linear (degree-based)" if ok else "the LP path is not gated by the degree-based linearity test", loc=lp.loc, detail="lp-gated-by-degree")
+    rep.pin("routing", "R12.3", "routing", ok, "both the auto router and solve_lp gate on is_linear (degree-based)" if ok else "the LP path is not gated by the degree-based linearity test", loc=lp.loc, detail="lp-gated-by-degree")
 
     # ------------------------------------------------------------------ R12.4
     from .c01 import evaluator_builders
